@@ -36,7 +36,11 @@ static void due(struct _task_s *w, int which, long long limit)
 	const unsigned int running = run_sup[which] + run_unsup[which];
 	/* remember which child slots were free */
 	int was[ENV_MAXC];
-	for (unsigned k = 0; k < ENV_MAXC; k++) was[k] = env_chl[k] != NULL;
+	unsigned int alive = 0U;
+	for (unsigned k = 0; k < ENV_MAXC; k++) was[k] = env_chl[k] != NULL, alive += env_chl[k] != NULL;
+	/* bound of the stand-ins: at most ENV_MAXC supervised executions are alive at once (the
+	 * separate-objects child allocator and the watcher registry hold that many) */
+	ASSUME(alive < ENV_MAXC);
 	task_cb(NULL, &w->w, 0);
 	CHECK(env_nspawn == before + 1U, "every due occurrence hands exactly one request to the executor");
 	if (env_nspawn == before + 1U) {
